@@ -458,37 +458,26 @@ func isErrorT(t types.Type) bool {
 // ruleEnqueueRingsBell: from every accept point (successful enqueue) every path to a return attempts
 // CAS(running, idle->running). Shared by C02 (R1) and C06 (R5).
 func ruleEnqueueRingsBell(c *core.Ctx, e *ev, R string) {
-	p, r := c.P, e.r
+	p := c.P
 	acq := &core.Query{P: p, Pred: e.runningAcquire}
-	// ---- R1a: from every accept point, CAS on every path to return
-	for _, E := range r.Enqueuers {
-		c.FuncsSeen[p.QName(E)] = true
-		n := 0
-		for _, si := range e.sendSelects(E) {
-			for _, st := range si.States {
-				if st.Body == nil || !(st.Send != nil && e.isField(st.Chan, r.WriteQueue)) {
-					continue
-				}
-				n++
-				c.Instance(R)
-				bad, path := acq.MustPassBetween(nil, st.Body, nil, core.IsNormalReturn, nil)
-				c.Check(bad == nil, R, fmt.Sprintf("%s/enqueue#%d/rings-the-bell", core.FName(E), n), p.InstrPos(si.Sel),
-					"every path from the enqueue to a return attempts CAS(running, idle->running)",
-					"a path from a successful enqueue returns without attempting to start the sender (stranded write)", p.PathString(path, bad)...)
-			}
+	pts := e.acceptPoints()
+	if len(pts) == 0 {
+		c.Instance(R)
+		c.Unk(R, "accept-points", "", "no accept point found (enqueue idiom not recognised)")
+	}
+	for _, a := range pts {
+		c.Instance(R)
+		c.FuncsSeen[p.QName(a.fn)] = true
+		bad, path := acq.MustPassBetween(a.from, a.body, nil, core.IsNormalReturn, a.edgeOK)
+		pos := p.Pos(a.fn.Pos())
+		if a.from != nil {
+			pos = p.InstrPos(a.from)
+		} else if a.body != nil && len(a.body.Instrs) > 0 {
+			pos = p.InstrPos(a.body.Instrs[0])
 		}
-		for _, f := range core.WithAnon(E) {
-			core.AllInstrs(f, func(in ssa.Instruction) {
-				if s, ok := in.(*ssa.Send); ok && e.queueSend(s) {
-					n++
-					c.Instance(R)
-					bad, path := acq.MustPassBetween(in, nil, nil, core.IsNormalReturn, nil)
-					c.Check(bad == nil, R, fmt.Sprintf("%s/enqueue#%d/rings-the-bell", core.FName(E), n), p.InstrPos(in),
-						"every path from the enqueue to a return attempts CAS(running, idle->running)",
-						"a path from a successful enqueue returns without attempting to start the sender (stranded write)", p.PathString(path, bad)...)
-				}
-			})
-		}
+		c.Check(bad == nil, R, a.desc+"/rings-the-bell", pos,
+			"every path from the enqueue to a return attempts CAS(running, idle->running)",
+			"a path from a successful enqueue returns without attempting to start the sender (stranded write)", p.PathString(path, bad)...)
 	}
 }
 
